@@ -136,6 +136,12 @@ func run(t *tape.Tape, cfg sim.Config, listen bool) (res sim.Result) {
 	}
 	pa := plan.Generate(t, o)
 	pa.Name = "pa"
+	if cfg.Class == "overflow" && t.Chance(1, 2) {
+		// the recursing functions call a (listened) host function at every level: the level at which the
+		// stack runs out is then sometimes a host call
+		pa.RecHost = true
+		res.Stat("probe.recursion_calling_a_host_function_at_every_level", 1)
+	}
 	ob := o
 	ob.NImports, ob.ImportFrom = len(pa.Funcs), "a"
 	ob.Rec = false
